@@ -166,6 +166,24 @@ Theorem C07_auth_claim_in_issuers_tree :
 Proof. exact bjj_auth_in_tree. Qed.
 Print Assumptions C07_auth_claim_in_issuers_tree.
 
+(* "The validated status shows it not revoked", grounded in the revocation tree: if the status
+   answer consulted by a verified bundle names the root of a well-formed revocation tree rt, then
+   the auth claim's nonce is not a key of rt - or a hash collision is exhibited. *)
+Theorem C07_not_revoked_in_tree :
+  forall (poseidon : list Z -> Z) (q : Z) (maxlev : nat) (D SigT : Type)
+         (sig_verify : Z -> Z -> Z -> SigT -> bool)
+         (resolve_did : D -> Z -> did_answer) (id_from_did : D -> Z -> option Z)
+         (genesis_check : Z -> Z -> option bool) (reg : registry) (b : bjj_bundle D SigT),
+  verify_bjj poseidon q D SigT sig_verify resolve_did id_from_did genesis_check reg b = Ok tt ->
+  exists auth cs rslv ans,
+    b_auth b = Some auth /\ status_entry (b_status b) cs /\ cs_nonce cs = claim_nonce auth /\
+    lookup_resolver reg (cs_type cs) = Some rslv /\ rslv cs = Some ans /\
+    forall rt, wf maxlev rt ->
+      hex_or_zero (ts_rtr (a_issuer ans)) = Ok (root (Status.hl poseidon) (Status.hm poseidon) rt) ->
+      ~ In (hash_of_z (claim_nonce auth)) (keys rt) \/ Collision (Status.hl poseidon) (Status.hm poseidon).
+Proof. exact bjj_not_revoked_in_tree. Qed.
+Print Assumptions C07_not_revoked_in_tree.
+
 (* No panic, no divergence: on every bundle whose credentialStatus has a shape a JSON decoder
    produces (what VerifyProof hands over), the verifier answers nil or an error. *)
 Theorem C07_total :
